@@ -150,7 +150,7 @@ def quantifier(ev: Ev, which: str, g: ast.GeneratorExp | ast.ListComp) -> Val:
 			ts = []
 			for k in range(*[a.conc for a in args]):
 				env[var] = py_to_val(k)
-				sub = Ev(ev.eng, ev.fn, State(env, ev.st.pc), ev.oracle, 'spec', ev.old)
+				sub = Ev(ev.eng, ev.fn, State(env, ev.st.pc), ev.oracle, 'spec', ev.old, None, ev.prev)
 				conds = [sub.truth(c) for c in gen.ifs]
 				b = sub.truth(g.elt)
 				ts.append(z3.Implies(z3.And(*conds), b) if which == 'all' else z3.And(*conds, b))
@@ -171,7 +171,7 @@ def quantifier(ev: Ev, which: str, g: ast.GeneratorExp | ast.ListComp) -> Val:
 			rng = z3.And(0 <= q, q < z3.Length(seq.term))
 		else:
 			raise EngineError(f'quantifier over {seq.ty}')
-	sub = Ev(ev.eng, ev.fn, State(env, ev.st.pc), ev.oracle, 'spec', ev.old, list(ev.guards) + [rng])
+	sub = Ev(ev.eng, ev.fn, State(env, ev.st.pc), ev.oracle, 'spec', ev.old, list(ev.guards) + [rng], ev.prev)
 	conds = [sub.truth(c) for c in gen.ifs]
 	body = sub.truth(g.elt)
 	if which == 'all':
@@ -623,6 +623,13 @@ def list_method(ev: Ev, lst: Val, name: str, args: list[Val], n: ast.Call, recv_
 		r = z3.IndexOf(x, z3.Unit(v.term), 0)
 		ev.exit_if(r < 0, 'ValueError')
 		return Val(INT, r)
+	if name == 'remove':
+		# removes the first occurrence; ValueError when there is none
+		v = ev.coerce(args[0], t.elem)
+		r = z3.IndexOf(x, z3.Unit(v.term), 0)
+		ev.exit_if(r < 0, 'ValueError')
+		write_back(ev, recv_node, Val(t, z3.Concat(z3.Extract(x, 0, r), z3.Extract(x, r + 1, ln - r - 1))))
+		return ev.lift(None)
 	if name == 'clear':
 		write_back(ev, recv_node, py_to_val([], t))
 		return ev.lift(None)
@@ -983,6 +990,10 @@ def modular_call(ev: Ev, fs: source.FuncSrc, c: Contract, args: list[Val], kwarg
 		if sp and (m == sp or m.startswith(sp + '.')):
 			continue
 		pn = m.split('.')[0]
+		if pn in env and m == pn and isinstance(env[pn].ty, (TList, TDict)):
+			# a list / dict parameter mutated in place: the caller's variable gets an unknown value constrained by the postcondition
+			other_new[pn] = ev.eng.fresh(env[pn].ty, f'{pn}_after')
+			continue
 		if pn not in env or not isinstance(env[pn].ty, TRec):
 			raise EngineError(f'modifies {m}: not a record-typed parameter')
 		prty = env[pn].ty
